@@ -37,7 +37,7 @@ MANIFEST = {
 TOWERS = [("north", 50.0003, 10.0004, 5), ("south", 50.0001, 10.0008, 7.5), ("mast3", 50.0004, 10.0002, 6)]
 
 
-def make_config(nt, ns, use_cache, footprint=True, variant="plain", src_loc=None, levels=None, single_row=False, snap=False):
+def make_config(nt, ns, use_cache, footprint=True, variant="plain", src_loc=None, levels=None, single_row=False, snap=False, awkward=False):
     from bldfm.config_parser import parse_config_dict
 
     ust = [0.30, 0.45, 0.30, 0.38]  # step 2 repeats step 0 (cache hit inside one series)
@@ -52,7 +52,9 @@ def make_config(nt, ns, use_cache, footprint=True, variant="plain", src_loc=None
     cfg_ = parse_config_dict(
         {
             "domain": dict({"nx": 8, "ny": 6, "xmax": 80.0, "ymax": 60.0, "nz": 4, "modes": [8, 6], "ref_lat": 50.0, "ref_lon": 10.0, "halo": 20.0},
-                           **({"output_levels": levels} if levels else {}), **({"ny": 1, "ymax": 10.0, "modes": [64, 64]} if single_row else {})),
+                           **({"output_levels": levels} if levels else {}), **({"ny": 1, "ymax": 10.0, "modes": [64, 64]} if single_row else {}),
+                           # a cell size that is not a binary fraction (75 m / 7 cells, 60 m / 13 cells): n * (L / n) != L in floating point
+                           **({"nx": 7, "xmax": 75.0, "ny": 13, "ymax": 60.0, "modes": [64, 64]} if awkward else {})),
             "towers": [{"name": n, "lat": la, "lon": lo, "z_m": zm} for n, la, lo, zm in TOWERS[:nt]],
             "met": {"ustar": ust[:ns], "wind_dir": wdir[:ns], "mol": -50, "wind_speed": 3, "timestamps": stamps},
             "solver": dict({"footprint": footprint, "precision": "double"}, **({"src_loc": src_loc} if src_loc else {})),
@@ -122,7 +124,7 @@ def case_pool(case):
 
     nt, ns = case["shape"]
     strat, W = case["strategy"], case["W"]
-    opts = dict(levels=case.get("levels"), single_row=case.get("single_row", False), snap=case.get("snap", False))
+    opts = dict(levels=case.get("levels"), single_row=case.get("single_row", False), snap=case.get("snap", False), awkward=case.get("awkward", False))
     if case.get("earlier_run_other_source"):
         # an EARLIER run in the same working directory (same domain, towers, met; source somewhere else) has left its
         # files behind (only matters if something is cached on disk)
@@ -266,8 +268,8 @@ def cells(tier):
         if ntasks >= 6 and W >= 4 and (pt != 1 or cache):
             continue  # 384-600 orders per cell: replayed once (one thread setting, cache off)
         variant = ("plain", "dup-labels", "steady")[(W + nt + ns + (1 if cache else 0)) % 3]
-        k_ = (2 * W + nt + 3 * ns + pt) % 4
-        extra = [{}, {"levels": [1, 3]}, {"snap": True}, {"levels": [3, 0, 4], "single_row": True}][k_]
+        k_ = (2 * W + nt + 3 * ns + pt) % 5
+        extra = [{}, {"levels": [1, 3]}, {"snap": True}, {"levels": [3, 0, 4], "single_row": True}, {"awkward": True}][k_]
         yield dict({"shape": list(shape), "strategy": strat, "W": W, "parent_threads": pt, "cache": cache, "ntasks": ntasks, "npools": npools, "variant": variant}, **extra)
     # dispersion mode with the cache switched on and an earlier run with another source in the same directory
     for shape, strat, W in itertools.product([(2, 2), (1, 3)] if tier == "quick" else [(2, 2), (1, 3), (2, 3)], ("towers", "time", "both"), (1, 2, 3)):
